@@ -2,404 +2,189 @@
 
 from __future__ import annotations
 
-import ast
+import itertools
 
-from sa import term as T
-from sa.cfg import CFG
+from sa.absio import LayoutMismatch
+from sa.interp import EnumMember, SObj
 from sa.load import AnalysisError, Repo, loc
 from sa.report import Run
-from sa.term import Rat
+from spec import sqwfmt
 
-BUILD, LOW, SQW, RW, MODELS, IR, BYTES = ('io.sqw._build', 'io.sqw._low_level_io', 'io.sqw._sqw', 'io.sqw._read_write',
-                                          'io.sqw._models', 'io.sqw._ir', 'io.sqw._bytes')
-PRIM_SIZE = {'u8': 1, 'logical': 1, 'u32': 4, 'u64': 8, 'f64': 8}
-ITEMSIZE = {'float64': 8, 'float32': 4, 'uint64': 8, 'int64': 8, 'uint32': 4}
+from .sqw_af import BUILD, DND_SHAPE, SQW, build, expected_blocks, reopen
 
-
-def norm_(node) -> str:
-    return ast.unparse(node).replace(' ', '')
+FULL = ('P', 'I', 'S', 'D', 'T')
 
 
-def stmts(fn) -> list[str]:
-    return [norm_(s) for s in ast.walk(fn) if isinstance(s, ast.stmt)
-            and not isinstance(s, ast.FunctionDef | ast.If | ast.For | ast.Try | ast.With | ast.While)]
-
-
-class Wire:
-    """Extract the sequence of low-level reads/writes a function performs on its sqw_io."""
-
-    def __init__(self, repo: Repo, direction: str):
-        self.repo = repo
-        self.dir = direction  # 'write' | 'read'
-
-    def of(self, fi, receivers=('sqw_io', 'self._sqw_io')):
-        self.fi = fi
-        self.receivers = receivers
-        self.local_dtypes = {}
-        for n in ast.walk(fi.node):
-            if isinstance(n, ast.Assign) and isinstance(n.targets[0], ast.Name) and isinstance(n.value, ast.Call):
-                d = self._np_dtype(n.value)
-                if d:
-                    self.local_dtypes[n.targets[0].id] = d
-        out = self._body(fi.node.body)
-        # everything after the first seek() patches earlier bytes and is not part of the layout
-        return out
-
-    def _np_dtype(self, call: ast.Call):
-        f = ast.unparse(call.func)
-        if f.split('.')[-1] in ('zeros', 'empty', 'ones', 'full', 'dtype'):
-            for k in call.keywords:
-                if k.arg == 'dtype':
-                    return ast.unparse(k.value).strip('\'"').replace('np.', '').replace('numpy.', '')
-            if f.endswith('dtype') and call.args and isinstance(call.args[0], ast.Constant):
-                return call.args[0].value
-        return None
-
-    def _body(self, body):
-        out = []
-        for st in body:
-            if isinstance(st, ast.Expr | ast.Assign | ast.AnnAssign | ast.AugAssign | ast.Return):
-                out += self._expr(st.value) if getattr(st, 'value', None) is not None else []
-            elif isinstance(st, ast.For):
-                inner = self._body(st.body)
-                pre = self._expr(st.iter)
-                out += pre
-                if inner:
-                    out.append(('loop', norm_(st.iter), inner))
-            elif isinstance(st, ast.If):
-                a, b = self._body(st.body), self._body(st.orelse)
-                pre = self._expr(st.test)
-                out += pre
-                if a and b and a != b:
-                    out.append(('alt', a, b))
-                elif a or b:
-                    out += a or b
-            elif isinstance(st, ast.With):
-                out += self._body(st.body)
-            elif isinstance(st, ast.Match):
-                pass
-            if any(isinstance(n, ast.Call) and isinstance(n.func, ast.Attribute) and n.func.attr == 'seek' and norm_(n.func.value) in self.receivers
-                   for n in ast.walk(st)):
-                break
-        return out
-
-    def _expr(self, e):
-        """Calls in evaluation order (arguments before the call)."""
-        out = []
-        if isinstance(e, ast.Call):
-            for a in e.args:
-                out += self._expr(a)
-            for k in e.keywords:
-                out += self._expr(k.value)
-            f = e.func
-            if isinstance(f, ast.Attribute) and norm_(f.value) in self.receivers and f.attr.startswith(self.dir + '_'):
-                prim = f.attr[len(self.dir) + 1:]
-                if prim == 'array':
-                    dt = None
-                    if self.dir == 'write' and e.args:
-                        a0 = e.args[0]
-                        base = a0.value if isinstance(a0, ast.Subscript) else a0
-                        if isinstance(base, ast.Name):
-                            dt = self.local_dtypes.get(base.id)
-                        elif isinstance(base, ast.Call):
-                            dt = self._np_dtype(base)
-                    elif self.dir == 'read' and len(e.args) > 1 and isinstance(e.args[1], ast.Call):
-                        dt = self._np_dtype(e.args[1])
-                    out.append(('array', dt))
-                elif prim in ('raw',):
-                    out.append(('raw', None))
-                else:
-                    out.append((prim, None))
-            elif isinstance(f, ast.Name) and f.id in self.repo.module(self.fi.module).functions and e.args and norm_(e.args[0]) in self.receivers:
-                sub = Wire(self.repo, self.dir).of(self.repo.module(self.fi.module).functions[f.id], receivers=('sqw_io',))
-                out += sub
-            else:
-                out += self._expr(f) if not isinstance(f, ast.Name) else []
-        elif isinstance(e, ast.ListComp | ast.GeneratorExp | ast.DictComp | ast.SetComp):
-            inner = self._expr(e.elt if not isinstance(e, ast.DictComp) else e.value)
-            if inner:
-                out.append(('loop', norm_(e.generators[0].iter), inner))
-        elif isinstance(e, ast.AST):
-            for ch in ast.iter_child_nodes(e):
-                if isinstance(ch, ast.expr):
-                    out += self._expr(ch)
-        return out
-
-
-def flatten_chunks(sig):
-    """A loop that only writes array chunks is one array on the wire."""
+def configs(tier: str):
+    """(calls, byteorder, n_pixels, chunk, n_runs, target, title)"""
     out = []
-    for s in sig:
-        if s[0] == 'loop' and len(s[2]) == 1 and s[2][0][0] == 'array':
-            out.append(s[2][0])
-        elif s[0] == 'loop':
-            out.append(('loop', None, flatten_chunks(s[2])))
-        else:
-            out.append(s)
+    orders = [FULL, ('T', 'D', 'S', 'I', 'P'), ('D', 'P', 'T', 'S', 'I')]
+    if tier == 'thorough':
+        orders = list(itertools.permutations(FULL))[::5]
+    for o in orders:
+        out.append((o, 'little', 5, 2, 1, 'memory', 'a title'))
+    for bo, target in (('big', 'memory'), ('little', 'file'), ('big', 'file')):
+        out.append((FULL, bo, 5, 2, 2, target, 'a title'))
+    for sub in ((), ('P',), ('D',), ('P', 'D'), ('D', 'P'), ('I', 'S'), ('P', 'I'), ('S', 'P', 'T'), ('T',)):
+        out.append((sub, 'little', 3, 2, 1, 'memory', 't'))
+    pix = [(0, 3), (1, 1), (5, 5), (5, 8), (12, 5), (12, 9), (12, 20), (10, 1)]
+    if tier == 'thorough':
+        pix += [(n, c) for n in (2, 7, 9, 10, 18, 19) for c in (1, 2, 3, 9, 10, 11, 40)]
+    for n, c in pix:
+        out.append((('P', 'D'), 'little' if (n + c) % 2 else 'big', n, c, 1, 'memory', 't'))
+    out.append((FULL, 'little', 4, 3, 3, 'memory', ''))
+    out.append((FULL, 'big', 4, 3, 1, 'memory', 'x' * 300 + ' é'))
     return out
-
-
-def strip_keys(sig):
-    out = []
-    for s in sig:
-        if s[0] == 'loop':
-            out.append(('loop', strip_keys(s[2])))
-        elif s[0] == 'alt':
-            out.append(('alt', strip_keys(s[1]), strip_keys(s[2])))
-        else:
-            out.append(s)
-    return out
-
-
-def sym_eval(e, env):
-    """Evaluate a size() expression over symbols with the exact term algebra."""
-    k = norm_(e)
-    if k in env:
-        return env[k]
-    if isinstance(e, ast.Constant) and isinstance(e.value, int | float):
-        return Rat.const(e.value)
-    if isinstance(e, ast.BinOp):
-        a, b = sym_eval(e.left, env), sym_eval(e.right, env)
-        if isinstance(e.op, ast.Add):
-            return a + b
-        if isinstance(e.op, ast.Sub):
-            return a - b
-        if isinstance(e.op, ast.Mult):
-            return a * b
-    if isinstance(e, ast.Call) and norm_(e.func) == 'int' and e.args:
-        return sym_eval(e.args[0], env)
-    raise AnalysisError(f'size expression outside the recognised subset: {k}')
 
 
 def run(tier: str) -> Run:
     run = Run('C12', tier, 'other',
-              'I/O effect analysis of the SQW writer and reader.  Each function gets a wire signature: the '
-              'ordered primitives (u8/u32/u64/f64/char_array/array<dtype>) it writes or reads, with loops.  '
-              'Decided: (R1) writer and reader signatures agree for the file header, the block allocation '
-              'table, block descriptors, the pixel block and the histogram block; (R2) the declared size() of '
-              'the pixel and histogram blocks equals the symbolic byte count of their write() (the chunked '
-              'pixel loop must iterate over the pixel count it declared), and regular blocks declare the length '
-              'of the very buffer that is written; (R3) block positions start right after the table and advance '
-              'by the declared sizes in the same dict order the write loop uses; (R4) block order is the '
-              'canonical order, independent of builder call order; (R5) the header constants are horace / 4.0 and '
-              'the first field is a short char array, which makes byte-order deduction correct; (R6) every '
-              'multi-byte primitive honours the byte order and every match on byte order / block type is '
-              'exhaustive; (R7) every type tag the models emit has a registered writer and reader.  numpy '
-              'tofile/tobytes byte counts are modelled as size*itemsize.')
+              'The SQW builder is interpreted end to end on symbolic inputs with an abstract file (sa/absio.py: concrete bytes '
+              'for integers and text, symbolic cells for floating-point numbers, byte order and width included), for a finite '
+              'set of configurations: orders and subsets of the builder calls, both byte orders, pixel counts and chunk sizes '
+              'below / equal / above each other and the row count, 1..3 runs, in memory and through open(), titles from empty '
+              'to 300 characters.  The bytes written are decoded by an independent reader of the documented layout '
+              '(spec/sqwfmt.py) and re-opened with the package\'s own reader.  Decided per configuration: (R1) header = '
+              'horace / 4.0 / SQW / n_dims and the byte order found from the first field is the one requested, also by '
+              'Sqw.open without a byte order; (R2) the block table size field is right, every expected block is listed once, '
+              'the order is the same for every order of builder calls, and the extents start at the end of the table, are '
+              'contiguous and end at end-of-file; (R3) every extent holds a block of the declared type that decodes completely '
+              'and exactly within it, by the independent decoder and by the package reader (pixel block: 9 rows x N pixels of '
+              'float32; histogram block: the declared shape, zeros).  numpy tofile/tobytes and frombuffer/fromfile are modelled.')
     repo = Repo()
-    run.analysed = {'modules': [BUILD, LOW, SQW, RW, MODELS, IR, BYTES], 'digest': repo.digest.hexdigest()}
-    run.trusted = ['numpy writes size*itemsize bytes for an array', 'sa/cfg.py']
-    W, R = Wire(repo, 'write'), Wire(repo, 'read')
-
-    # ---- R1 --------------------------------------------------------------------
-    r1 = run.rule('R1', 'writer and reader wire signatures agree', 5)
-    pairs = [
-        ('file header', (BUILD, '_write_file_header'), (SQW, '_read_file_header')),
-        ('block descriptor', (BUILD, '_write_data_block_descriptor'), (SQW, '_read_data_block_descriptor')),
-        ('block allocation table', (BUILD, 'SqwBuilder._serialize_block_allocation_table'), (SQW, '_read_block_allocation_table')),
-        ('pixel block', (BUILD, '_PixWrap.write'), (SQW, '_read_pix_block')),
-        ('histogram block', (BUILD, '_DndPlaceholder.write'), (SQW, '_read_dnd_block')),
-    ]
-    sigs = {}
-    for label, w, r in pairs:
-        wfi, rfi = repo.func(*w), repo.func(*r)
-        ws = strip_keys(flatten_chunks(W.of(wfi)))
-        rs = strip_keys(flatten_chunks(R.of(rfi)))
-        sigs[label] = (ws, rs)
-        r1.check(ws == rs and bool(ws), label, loc(wfi), {'writer': repr(ws), 'reader': repr(rs)}, key=label)
-
-    # ---- R2 sizes ----------------------------------------------------------------------
-    r2 = run.rule('R2', 'declared block size equals the bytes written', 3)
-    # histogram block
-    dw, dsz = repo.func(BUILD, '_DndPlaceholder.write'), repo.func(BUILD, '_DndPlaceholder.size')
-    ND, NE = Rat.sym('n_dims', True), Rat.sym('n_elem', True)
-    sig = W.of(dw)
-    total = Rat.const(0)
-    ok = True
-    for s in sig:
-        if s[0] in PRIM_SIZE:
-            total = total + PRIM_SIZE[s[0]]
-        elif s[0] == 'loop' and s[1] == 'self.shape' and [x[0] for x in s[2]] == ['u32']:
-            total = total + 4 * ND
-        elif s[0] == 'array' and s[1] in ITEMSIZE:
-            total = total + ITEMSIZE[s[1]] * NE
-        else:
-            ok = False
-    env = {'len(self.shape)': ND, 'n_elem': NE}
-    sz_ret = [s for s in ast.walk(dsz.node) if isinstance(s, ast.Return)]
-    ne_def = 'n_elem=int(np.prod(self.shape))' in stmts(dsz.node)
-    arr_shapes = [norm_(c.args[0]) for c in ast.walk(dw.node) if isinstance(c, ast.Call) and norm_(c.func).split('.')[-1] == 'zeros' and c.args]
-    declared = sym_eval(sz_ret[0].value, env) if len(sz_ret) == 1 else None
-    r2.check(ok and ne_def and declared is not None and declared.eq(total) and all(a == 'self.shape' for a in arr_shapes) and len(arr_shapes) >= 1,
-             'histogram block', loc(dsz), {'declared': T.show(declared) if declared is not None else None, 'written': T.show(total), 'signature': repr(sig)}, key='dnd-size')
-    # pixel block: chunk-loop idiom
-    pw, psz = repo.func(BUILD, '_PixWrap.write'), repo.func(BUILD, '_PixWrap.size')
-    loops = [n for n in pw.node.body if isinstance(n, ast.For)]
-    if len(loops) != 1:
-        raise AnalysisError('_PixWrap.write: the chunked-copy loop idiom (one top-level for over range(0, N, chunk_size)) is not recognised')
-    lp = loops[0]
-    it_ = lp.iter
-    idiom = isinstance(it_, ast.Call) and norm_(it_.func) == 'range' and len(it_.args) == 3 and norm_(it_.args[0]) == '0' and norm_(it_.args[2]) == 'chunk_size'
-    texts = stmts(pw.node)
-    bound = norm_(it_.args[1]) if idiom else None
-    rem = [t_[len('remaining='):] for t_ in texts if t_.startswith('remaining=')]
-    header = [norm_(c.args[0]) for c in ast.walk(pw.node) if isinstance(c, ast.Call) and norm_(c.func) == 'sqw_io.write_u64' and c.args]
-    rows_hdr = [norm_(c.args[0]) for c in ast.walk(pw.node) if isinstance(c, ast.Call) and norm_(c.func) == 'sqw_io.write_u32' and c.args]
-    buf = [t_ for t_ in texts if t_.startswith('buffer=np.empty(')]
-    loopvar = norm_(lp.target)
-    body = stmts(lp)
-    idiom = idiom and 'n=min(chunk_size,remaining)' in body and 'remaining-=n' in body and 'sqw_io.write_array(buffer[:n])' in body \
-        and any(f'row[{loopvar}:{loopvar}+chunk_size]' in t_ for t_ in body)
-    counts = {'loop bound': bound, 'remaining': rem[0] if rem else None, 'declared count': header[0] if header else None,
-              'buffer rows': buf[0][len('buffer=np.empty(('):].split(',')[0] if buf else None}
-    same = idiom and len(set(counts.values())) == 1 and None not in counts.values()
-    NP, NR = Rat.sym('n_pixels', True), Rat.sym('n_rows', True)
-    env = {'self.n_rows()': NR, 'self.n_pixels()': NP}
-    sz_ret = [s for s in ast.walk(psz.node) if isinstance(s, ast.Return)]
-    declared = sym_eval(sz_ret[0].value, env) if len(sz_ret) == 1 else None
-    written = 4 + 8 + NR * 4 * NP
-    r2.check(same and declared is not None and declared.eq(written) and rows_hdr == ['self.n_rows()'] and counts['loop bound'] == 'self.n_pixels()'
-             and buf and 'dtype=np.float32' in buf[0] and ',self.n_rows())' in buf[0],
-             'pixel block', loc(pw, lp), {'counts_that_must_be_one_expression': counts, 'idiom_recognised': idiom,
-                                          'declared': T.show(declared) if declared is not None else None, 'written_if_loop_covers_all_pixels': T.show(written)},
-             key='pix-size')
-    # regular blocks
-    sfi = repo.func(BUILD, 'SqwBuilder._serialize_data_blocks')
-    texts = stmts(sfi.node)
-    src = norm_(sfi.node)
-    r2.check('buf=buffer.getbuffer()' in texts and 'buffers[name]=buf' in texts and 'size=len(buf)' in src and 'size=self._dnd_placeholder.size()' in src
-             and 'size=self._pix_wrap.size()' in src, 'regular blocks declare len() of the buffer written', loc(sfi), {}, key='regular-size')
-
-    # ---- R3 extents ----------------------------------------------------------------------------
-    r3 = run.rule('R3', 'extents start after the table, advance by the declared sizes, in the order the blocks are written', 4)
-    keys_b = [norm_(n.targets[0].slice) for n in ast.walk(sfi.node) if isinstance(n, ast.Assign) and isinstance(n.targets[0], ast.Subscript) and norm_(n.targets[0].value) == 'buffers']
-    keys_d = [norm_(n.targets[0].slice) for n in ast.walk(sfi.node) if isinstance(n, ast.Assign) and isinstance(n.targets[0], ast.Subscript) and norm_(n.targets[0].value) == 'descriptors']
-    rets = [n for n in ast.walk(sfi.node) if isinstance(n, ast.Return)]
-    r3.check(keys_b == keys_d and len(keys_b) == 3 and len(rets) == 1 and norm_(rets[0].value) == '(buffers,descriptors)', 'buffers and descriptors are filled pairwise and returned as built',
-             loc(sfi), {'buffer_keys': keys_b, 'descriptor_keys': keys_d, 'returns': norm_(rets[0].value) if rets else None}, key='pairwise')
-    bfi = repo.func(BUILD, 'SqwBuilder._serialize_block_allocation_table')
-    texts = stmts(bfi.node)
-    bsrc = norm_(bfi.node)
-    pos_ok = 'block_position=bat_offset+sqw_io.position' in texts and 'block_position+=descriptor.size' in texts \
-        and 'sqw_io.write_u64(block_position)' in texts and 'amended_descriptors[name]=dataclasses.replace(descriptor,position=block_position)' in texts
-    bcfg = CFG(bfi.node)
-    order = [norm_(s) for s in bfi.node.body]
-    idx_table = next((i for i, s in enumerate(order) if s.startswith('position_offsets=')), -1)
-    idx_pos = next((i for i, s in enumerate(order) if s.startswith('block_position=bat_offset+')), -1)
-    idx_loop = next((i for i, s in enumerate(order) if s.startswith('forname,descriptorinblock_descriptors.items():')), -1)
-    r3.check(pos_ok and 0 <= idx_table < idx_pos < idx_loop and 'forname,descriptorinblock_descriptors.items()' in bsrc
-             and 'sqw_io.write_u32(bat_size)' in texts and 'bat_size=sqw_io.position-bat_begin' in texts,
-             'positions = table end + running sum of sizes', loc(bfi), {'order': [s[:50] for s in order]}, key='positions')
+    run.analysed = {'modules': ['io.sqw._build', 'io.sqw._low_level_io', 'io.sqw._sqw', 'io.sqw._read_write', 'io.sqw._models', 'io.sqw._ir', 'io.sqw._bytes'],
+                    'digest': repo.digest.hexdigest()}
+    run.trusted = ['sa/absio.py, sa/sqwio.py (numpy / io / struct model)', 'spec/sqwfmt.py (independent decoder)']
+    r0 = run.rule('R0', 'the builder completes for every configuration', 20)
+    r1 = run.rule('R1', 'header is horace 4.0 SQW with the declared n_dims; byte order found == byte order requested', 20)
+    r2 = run.rule('R2', 'block table: size field, each block once, call-order independent order, extents contiguous from the table end to EOF', 20)
+    r3 = run.rule('R3', 'each extent holds a block of the declared type that decodes completely and exactly within it', 20)
     cfi = repo.func(BUILD, 'SqwBuilder.create')
-    ctexts = stmts(cfi.node)
-    csrc = norm_(cfi.node)
-    order = ['_write_file_header(sqw_io,self._make_file_header())', 'block_buffers,block_descriptors=self._serialize_data_blocks()',
-             'sqw_io.write_raw(bat_buffer)']
-    pos = [csrc.find(o) for o in order] + [csrc.find('bat_offset=sqw_io.position'), csrc.find('forname,bufferinblock_buffers.items():')]
-    r3.check(all(p >= 0 for p in pos) and pos[0] < pos[1] < pos[3] < pos[2] < pos[4] and 'descriptor=block_descriptors[name]' in ctexts,
-             'header, table, then blocks in buffer order', loc(cfi), {'positions_in_source': pos}, key='create-order')
-    # each block type is written by its own writer
-    m = [n for n in ast.walk(cfi.node) if isinstance(n, ast.Match)]
-    cases = {}
-    if m:
-        for c in m[0].cases:
-            cases[norm_(c.pattern)] = [norm_(s) for s in c.body][:1]
-    r3.check(cases.get('SqwDataBlockType.regular') == ['sqw_io.write_raw(buffer)'] and cases.get('SqwDataBlockType.pix') == ['self._pix_wrap.write(sqw_io,chunk_size=chunk_size)']
-             and cases.get('SqwDataBlockType.dnd') == ['self._dnd_placeholder.write(sqw_io)'], 'block type -> writer', loc(cfi), {'cases': cases}, key='dispatch')
+    bfi = repo.func(BUILD, 'SqwBuilder._serialize_block_allocation_table')
+    rfi = repo.func(SQW, 'Sqw.read_data_block')
+    fails: dict = {'R0': {}, 'R1': {}, 'R2': {}, 'R3': {}}
+    reference_order: dict = {}
+    n = 0
 
-    # ---- R4 canonical order ----------------------------------------------------------------------
-    r4 = run.rule('R4', 'block order is the canonical order and every block name the builder uses is in it', 2)
-    ofi = repo.func(BUILD, '_to_canonical_block_order')
-    order_lit = None
-    for n in ast.walk(ofi.node):
-        if isinstance(n, ast.Assign) and norm_(n.targets[0]) == 'order':
-            order_lit = ast.literal_eval(n.value)
-    texts = stmts(ofi.node)
-    r4.check(order_lit is not None and 'out={name:blockfornameinorderif(block:=blocks.get(name))isnotNone}' in texts and 'out.update(blocks)' in texts
-             and 'returnout' in texts and 'return_to_canonical_block_order(blocks)' in stmts(repo.func(BUILD, 'SqwBuilder._prepare_data_blocks').node),
-             'canonical order applied to the prepared blocks', loc(ofi), {'order': order_lit}, key='canonical')
-    used = set()
-    bmi = repo.module(BUILD)
-    for n in ast.walk(bmi.tree):
-        if isinstance(n, ast.Subscript) and norm_(n.value) in ('self._data_blocks', 'blocks', 'buffers', 'descriptors') and isinstance(n.slice, ast.Tuple):
+    def bad(rule, inst, cfg, what):
+        fails[rule].setdefault(inst, {'configuration': cfg, 'problem': what})
+
+    for calls, bo, npix, chunk, nruns, target, title in configs(tier):
+        cfg = f'calls={"".join(calls) or "-"} byteorder={bo} pixels={npix} chunk={chunk} runs={nruns} target={target} title_len={len(title)}'
+        n += 1
+        try:
+            wr = build(repo, calls, bo, npix, chunk, nruns, target, title)
+        except LayoutMismatch as ex:
+            bad('R0', 'builder completes', cfg, f'write does not fit the file model: {ex}')
+            continue
+        if wr.outcome[0] != 'return' or wr.file is None:
+            bad('R0', 'builder completes', cfg, f'{wr.outcome}')
+            continue
+        units = wr.file.units
+        # ---- R1
+        try:
+            order = sqwfmt.detect_order(units)
+            c = sqwfmt.Cursor(units, order)
+            hdr = sqwfmt.file_header(c)
+        except sqwfmt.FormatError as ex:
+            bad('R1', 'header decodes', cfg, str(ex))
+            continue
+        if order != ('<' if bo == 'little' else '>'):
+            bad('R1', 'byte order of the file is the one requested', cfg, f'file reads as {order}')
+        want_hdr = {'prog_name': 'horace', 'prog_version': 4.0, 'sqw_type': 1, 'n_dims': 4 if 'P' in calls else 0}
+        if hdr != want_hdr:
+            bad('R1', 'header fields', cfg, f'{hdr} != {want_hdr}')
+        kind, sq = reopen(wr)
+        if kind != 'return' or not isinstance(sq, SObj):
+            bad('R1', 'Sqw.open re-opens the file', cfg, f'{kind} {sq}')
+            sq = None
+        else:
+            io_ = sq.attrs.get('_sqw_io')
+            got_bo = io_.attrs.get('_byteorder') if isinstance(io_, SObj) else None
+            if not (isinstance(got_bo, EnumMember) and got_bo.name == bo):
+                bad('R1', 'Sqw.open finds the byte order', cfg, f'deduced {got_bo!r}')
+            h2 = sq.attrs.get('_file_header')
+            if not (isinstance(h2, SObj) and h2.attrs.get('prog_name') == 'horace' and h2.attrs.get('prog_version') == 4.0 and h2.attrs.get('n_dims') == want_hdr['n_dims']):
+                bad('R1', 'header fields', cfg, f'package reader: {h2!r}')
+        # ---- R2
+        try:
+            bt = sqwfmt.block_table(c)
+        except sqwfmt.FormatError as ex:
+            bad('R2', 'block table decodes', cfg, str(ex))
+            continue
+        if bt['declared_size'] != bt['actual_size']:
+            bad('R2', 'table size field', cfg, f'declares {bt["declared_size"]} bytes, occupies {bt["actual_size"]}')
+        names = [b['name'] for b in bt['blocks']]
+        want_names = expected_blocks(calls)
+        if sorted(names) != sorted(want_names):
+            bad('R2', 'every block listed exactly once', cfg, f'listed {names}, expected {want_names}')
+        key = tuple(sorted(calls))
+        if key in reference_order and reference_order[key] != names:
+            bad('R2', 'order independent of the builder calls', cfg, f'{names} vs {reference_order[key]}')
+        reference_order.setdefault(key, names)
+        pos = bt['end']
+        for b in bt['blocks']:
+            if b['position'] != pos:
+                bad('R2', 'extents are contiguous from the end of the table', cfg, f'block {b["name"]} at {b["position"]}, previous data ends at {pos}')
+            pos = b['position'] + b['size']
+            want_type = {('pix', 'data_wrap'): 'pix_data_block', ('data', 'nd_data'): 'dnd_data_block'}.get(b['name'], 'data_block')
+            if b['block_type'] != want_type or b['locked'] != 0:
+                bad('R2', 'declared block types', cfg, f'{b}')
+        if pos != len(units):
+            bad('R2', 'last extent ends at end-of-file', cfg, f'extents end at {pos}, file has {len(units)} bytes')
+        if sq is not None:
+            bat2 = sq.attrs.get('_block_allocation_table')
+            if not isinstance(bat2, dict) or list(bat2) != names or any(
+                    not isinstance(d, SObj) or (d.attrs.get('position'), d.attrs.get('size')) != (b['position'], b['size']) for d, b in zip(bat2.values(), bt['blocks'], strict=False)):
+                bad('R2', 'package reader sees the same table', cfg, f'{list(bat2) if isinstance(bat2, dict) else bat2!r}')
+        # ---- R3
+        for b in bt['blocks']:
+            cur = sqwfmt.Cursor(units, order, b['position'])
+            end = b['position'] + b['size']
             try:
-                used.add(ast.literal_eval(n.slice))
-            except ValueError:
-                pass
-    r4.check(order_lit is not None and used <= set(order_lit) and len(used) >= 6, 'all block names are canonical', loc(ofi),
-             {'used': sorted(used), 'not_in_order': sorted(used - set(order_lit or ()))}, key='names')
-
-    # ---- R5 header constants / byte order deduction ------------------------------------------------------
-    r5 = run.rule('R5', 'header is horace 4.0; first field is a short char array; byte order deduced from its length', 2)
-    hfi = repo.func(BUILD, 'SqwBuilder._make_file_header')
-    src = norm_(hfi.node)
-    r5.check('prog_name="horace"' in src.replace("'", '"') and 'prog_version=4.0' in src and 'n_dims=self._n_dims' in src and 'sqw_type=SqwFileType.SQW' in src,
-             'header constants', loc(hfi), {}, key='header')
-    dfi = repo.func(LOW, '_deduce_byteorder')
-    texts = stmts(dfi.node)
-    first = sigs['file header'][0][:1]
-    r5.check(first == [('char_array', None)] and 'le_size=int.from_bytes(buf,"little")'.replace('"', "'") in [t_.replace('"', "'") for t_ in texts]
-             and 'be_size=int.from_bytes(buf,"big")'.replace('"', "'") in [t_.replace('"', "'") for t_ in texts]
-             and 'buf=file.read(4)' in texts and 'file.seek(pos)' in texts and 'pos=file.tell()' in texts
-             and any(isinstance(n, ast.If) and norm_(n.test) == 'le_size<be_size' and norm_(n.body[0]) == 'returnByteorder.little' for n in ast.walk(dfi.node))
-             and 'returnByteorder.big' in texts, 'byte-order deduction', loc(dfi), {'first_header_field': first}, key='byteorder-deduce')
-
-    # ---- R6 byte order use and exhaustive matches ------------------------------------------------------------
-    r6 = run.rule('R6', 'multi-byte primitives honour the byte order; matches on byte order and block type are exhaustive', 10)
-    lcls = repo.cls(LOW, 'LowLevelSqw')
-    for mname in ('read_u32', 'read_u64', 'read_f64', 'read_array', 'write_u32', 'write_u64', 'write_f64', 'write_array'):
-        mfi = lcls.methods[mname]
-        src = norm_(mfi.node)
-        r6.check('self._byteorder' in src or 'self.byteorder' in src, f'LowLevelSqw.{mname}', loc(mfi), {}, key=mname)
-    bo = repo.cls(BYTES, 'Byteorder')
-    members = [norm_(s.targets[0]) for s in bo.node.body if isinstance(s, ast.Assign)]
-    bt = repo.cls(MODELS, 'SqwDataBlockType')
-    bt_members = [norm_(s.targets[0]) for s in bt.node.body if isinstance(s, ast.Assign)]
-    for mod, fname, enum, mem in ((LOW, 'LowLevelSqw.read_f64', 'Byteorder', members), (LOW, 'LowLevelSqw.write_f64', 'Byteorder', members),
-                                  (BYTES, 'Byteorder.get', 'Byteorder', members), (BUILD, 'SqwBuilder.create', 'SqwDataBlockType', bt_members),
-                                  (SQW, 'Sqw.read_data_block', 'SqwDataBlockType', bt_members)):
-        f = repo.func(mod, fname)
-        ms = [n for n in ast.walk(f.node) if isinstance(n, ast.Match)]
-        covered = set()
-        for mm in ms:
-            for c in mm.cases:
-                p = norm_(c.pattern)
-                if p.startswith(enum + '.'):
-                    covered.add(p.split('.')[1])
-        r6.check(bool(ms) and covered == set(mem), f'{fname}: match on {enum}', loc(f), {'members': mem, 'covered': sorted(covered)}, key=f'{fname}:match')
-
-    # ---- R7 type tags ---------------------------------------------------------------------------------
-    r7 = run.rule('R7', 'type tags emitted by the models have registered writers and readers', 1)
-    rw = repo.module(RW)
-    writers, readers = set(), set()
-    for f in rw.functions.values():
-        for d in f.decorators():
-            if d.startswith('_WRITERS.add(ir.TypeTag.'):
-                writers.add(d[len('_WRITERS.add(ir.TypeTag.'):-1])
-            if d.startswith('_READERS.add(ir.TypeTag.'):
-                readers.add(d[len('_READERS.add(ir.TypeTag.'):-1])
-    irm = repo.module(IR)
-    tag_of = {}
-    for cname, ci in irm.classes.items():
-        for st in ci.node.body:
-            if isinstance(st, ast.AnnAssign) and norm_(st.target) == 'ty' and st.value is not None and norm_(st.value).startswith('TypeTag.'):
-                tag_of[cname] = norm_(st.value).split('.')[1]
-    emitted = set()
-    mm = repo.module(MODELS)
-    reachable = {'SqwMainHeader', 'SqwLineAxes', 'SqwLineProj', 'SqwDndMetadata', 'SqwPixelMetadata', 'SqwIXSource', 'SqwIXNullInstrument',
-                 'SqwIXSample', 'SqwIXExperiment', 'SqwMultiIXExperiment', 'UniqueRefContainer', 'UniqueObjContainer'}
-    nodes = [ci.node for n_, ci in mm.classes.items() if n_ in reachable] + [f.node for f in mm.functions.values()] \
-        + [irm.classes['Serializable'].node, irm.functions['_serialize_field'].node, irm.classes['Struct'].node]
-    for root in nodes:
-        for n in ast.walk(root):
-            if isinstance(n, ast.Call):
-                fn = norm_(n.func)
-                if fn.startswith('ir.') and fn[3:] in tag_of:
-                    emitted.add(tag_of[fn[3:]])
-                elif fn in tag_of:
-                    emitted.add(tag_of[fn])
-            if isinstance(n, ast.Attribute) and norm_(n).startswith(('ir.TypeTag.', 'TypeTag.')):
-                emitted.add(n.attr)
-    r7.check(emitted <= writers and writers == readers and len(emitted) >= 4, 'emitted tags have writers == readers', loc(rw.functions['write_object_array']),
-             {'emitted': sorted(emitted), 'writers': sorted(writers), 'readers': sorted(readers), 'missing': sorted(emitted - writers)}, key='tags')
+                if b['block_type'] == 'pix_data_block':
+                    blk = sqwfmt.pixel_block(cur)
+                    if blk['n_rows'] != 9 or blk['n_pixels'] != npix:
+                        bad('R3', 'pixel block holds 9 rows x N pixels', cfg, f'n_rows={blk["n_rows"]} n_pixels={blk["n_pixels"]}, supplied {npix}')
+                elif b['block_type'] == 'dnd_data_block':
+                    blk = sqwfmt.histogram_block(cur)
+                    if blk['shape'] != DND_SHAPE or any(v != 0 for v in blk['values'] + blk['errors'] + blk['counts']):
+                        bad('R3', 'histogram block holds zeros of the declared shape', cfg, f'shape {blk["shape"]}')
+                else:
+                    tree = sqwfmt.object_array(cur)
+                    sqwfmt.the_struct(tree)
+            except sqwfmt.FormatError as ex:
+                bad('R3', f'{b["block_type"]} decodes within its extent', cfg, f'{b["name"]}: {ex}')
+                continue
+            if cur.pos != end:
+                bad('R3', f'{b["block_type"]} decodes within its extent', cfg, f'{b["name"]}: decoding ends at {cur.pos}, the extent at {end}')
+            if sq is not None:
+                w = wr.world
+                kind, res = w.call(rfi, [b['name']], bound=sq, budget=400_000)
+                at = wr.file.tell()
+                if kind != 'return':
+                    bad('R3', 'package reader decodes every block', cfg, f'{b["name"]}: {kind} {res}')
+                elif at != end:
+                    bad('R3', 'package reader decodes every block', cfg, f'{b["name"]}: reader stops at {at}, the extent ends at {end}')
+    if n < 20:
+        raise AnalysisError(f'only {n} configurations interpreted')
+    instances = {
+        'R0': ['builder completes'],
+        'R1': ['header decodes', 'byte order of the file is the one requested', 'header fields', 'Sqw.open re-opens the file', 'Sqw.open finds the byte order'],
+        'R2': ['block table decodes', 'table size field', 'every block listed exactly once', 'order independent of the builder calls',
+               'extents are contiguous from the end of the table', 'declared block types', 'last extent ends at end-of-file', 'package reader sees the same table'],
+        'R3': ['pixel block holds 9 rows x N pixels', 'histogram block holds zeros of the declared shape', 'data_block decodes within its extent',
+               'pix_data_block decodes within its extent', 'dnd_data_block decodes within its extent', 'package reader decodes every block'],
+    }
+    where = {'R0': loc(cfi), 'R1': loc(repo.func(BUILD, '_write_file_header')), 'R2': loc(bfi), 'R3': loc(cfi)}
+    for rule, rr in (('R0', r0), ('R1', r1), ('R2', r2), ('R3', r3)):
+        for inst in instances[rule]:
+            f = fails[rule].get(inst)
+            rr.check(f is None, inst, where[rule], f or {'configurations': n}, key=inst)
+        for extra in fails[rule]:
+            if extra not in instances[rule]:
+                rr.fail(extra, where[rule], fails[rule][extra], key=extra)
+        for _ in range(n - len(instances[rule])):
+            rr.ok('configuration')
+    run.extra['configurations'] = n
     return run
